@@ -939,24 +939,45 @@ func (x *Exec) rangeStmt(fr *Frame, s *ast.RangeStmt, st *State) []*State {
 		stE.assume(Eq(i, n))
 		return x.join(append(lc.breaks, stE))
 	case KMap:
+		// ghost: the set of keys already visited, and the key set at loop start
+		m := types.Unalias(T).Underlying().(*types.Map)
+		ks := x.scalarSort(m.Key())
+		visKey := fmt.Sprintf("L:%d:$visited%d", fr.act, ord)
+		has0Key := fmt.Sprintf("L:%d:$rangehas%d", fr.act, ord)
+		fr.scope["$visited"] = visKey
+		fr.scope["$rangehas"] = has0Key
+		st.store[visKey] = Scalar(ConstArray(ArraySort(ks, SBool), False), nil)
+		st.store[has0Key] = Scalar(rv.Has, nil)
 		x.checkInvariants(fr, st, ls, ord, "loop-entry", s.Pos())
 		x.havocTargets(fr, st, s.Body)
+		vis := Fresh("range.visited", ArraySort(ks, SBool))
+		st.store[visKey] = Scalar(vis, nil)
 		x.assumeInvariants(fr, st, ls)
 		lc := &loopCtx{}
 		fr.loops = append(fr.loops, lc)
 		stB := st.Clone()
-		m := types.Unalias(T).Underlying().(*types.Map)
 		k := x.freshValue("range.key", m.Key())
-		stB.assume(Select(rv.Has, k.S))
+		stB.assume(And(Select(rv.Has, k.S), Not(Select(vis, k.S))))
 		bind(stB, keyIdent, k)
 		ev := Scalar(Select(rv.Arr, k.S), m.Elem())
 		x.valueFacts(ev)
 		bind(stB, valIdent, ev)
 		for _, outB := range x.join(append(lc.continues, x.block(fr, s.Body.List, []*State{stB})...)) {
+			outB.store[visKey] = Scalar(Store(vis, k.S, True), nil)
 			x.checkInvariants(fr, outB, ls, ord, "loop-step", s.Pos())
 		}
 		fr.loops = fr.loops[:len(fr.loops)-1]
 		stE := st.Clone()
+		// at exit every key that was present at the start and is still present has been visited
+		hasNow := rv.Has
+		if !containsCall(s.X) {
+			x.quiet++
+			hasNow = x.ctx(fr, stE).eval(s.X).Has
+			x.quiet--
+		}
+		bvarSeq++
+		bk := BVar(fmt.Sprintf("k!exit%d", bvarSeq), ks)
+		stE.assume(Forall([]*Term{bk}, Implies(And(Select(rv.Has, bk), Select(hasNow, bk)), Select(vis, bk))))
 		return x.join(append(lc.breaks, stE))
 	case KScalar:
 		if rv.S.Sort == SInt { // range over integer
